@@ -15,6 +15,22 @@ MAX_PRESENT = 40
 KEY_SHAPING = re.compile(r"lambda|^param_k(_prime)?$|^scheme$")
 
 
+def scribble(got, id_size):
+    """The caller owns what a search returned: it appends to it, sorts it, empties it. Nothing the library returns
+    later may be affected (a shared or cached result object would be)."""
+    try:
+        if isinstance(got, list):
+            got.append(b"\xee" * id_size)
+            got.reverse()
+            return True
+        if isinstance(got, set):
+            got.add(b"\xee" * id_size)
+            return True
+    except Exception:
+        pass
+    return False
+
+
 def run(spec, acc, ctx, mode):
     scheme = spec["scheme"]
     short = gen.SHORT[scheme]
@@ -158,7 +174,10 @@ def run(spec, acc, ctx, mode):
                     continue
                 nontrivial = True
                 acc.count("postings_compared", len(shadow[w]))
-                if not sse.result_matches(scheme, got, shadow[w]):
+                ok_ = sse.result_matches(scheme, got, shadow[w])
+                if ok_ and scribble(got, cp["id_size"]):
+                    acc.count("results_scribbled_on_by_the_caller")
+                if not ok_:
                     kind = sse.diff_kind(scheme, got, shadow[w])
                     acc.violation(f"{short}:wrong-result:{kind}",
                                   f"{scheme} result for a stored keyword differs ({kind}): got {len(got)} ids, "
@@ -183,6 +202,8 @@ def run(spec, acc, ctx, mode):
                     empty = len(got) == 0
                 except TypeError:
                     empty = False
+                if empty and scribble(got, cp["id_size"]):
+                    acc.count("results_scribbled_on_by_the_caller")
                 if not empty:
                     acc.violation(f"{short}:absent-nonempty",
                                   f"{scheme} search of an absent keyword ({fam}) returned {len(got)} identifiers",
@@ -254,6 +275,130 @@ def run_steered(spec, acc, ctx, mode):
         acc.count("steered.prf_outputs_forced", st_.n_prf)
         acc.count("steered.urandom_draws_forced", st_.n_ur)
         st_.n_prf = st_.n_ur = 0
+
+
+def run_feedback(spec, acc, ctx, mode):
+    """Keywords taken from the scheme itself: while a first EDBSetup runs, a hook on the PRF collects every message the
+    scheme evaluated that is not a keyword of the database (dummy keywords it pads with, keyword encodings with a prefix
+    or counter, derived labels).  Those that are valid keywords are then (present mode) stored as REAL keywords of a
+    second database built by a fresh object under a fresh key and searched, or (absent mode) searched on the first
+    index, where they are absent.  A name the scheme reserves for itself collides here."""
+    import toolkit.prf.hmac_prf as prf_mod
+    rng = ctx.rng
+    gen.MIXED_ID_SIZES = False
+    i = spec.get("index", 0)
+    while not ctx.out_of_time():
+        scheme = gen.SCHEMES[i % len(gen.SCHEMES)]
+        short = gen.SHORT[scheme]
+        i += 1
+        cid, cfg = gen.pick_config(scheme, rng, rng.randrange(40))
+        cp = gen.caps(scheme, cfg)
+        try:
+            db, info = gen.make_db(rng, scheme, cfg, rng.choice(["tiny", "zipf", "pow2-edge"]), rng.choice([5, 9, 14]))
+        except ValueError:
+            continue
+        seen = []
+        orig = prf_mod.HmacPRF.__call__
+
+        def recording(self, key, message):
+            if len(seen) < 5000:
+                seen.append(bytes(message))
+            return orig(self, key, message)
+        prf_mod.HmacPRF.__call__ = recording
+        try:
+            st1 = sse.Setup(scheme, copy.deepcopy(cfg), copy.deepcopy(db))
+        finally:
+            prf_mod.HmacPRF.__call__ = orig
+        if st1.error is not None:
+            continue
+        first_seen = list(dict.fromkeys(seen))
+        if mode == "absent":
+            # only names that anybody can compute count as keywords a user may search: those the scheme evaluates AGAIN
+            # in a second setup of the same database under another key (a random dummy keyword drawn for one setup is
+            # searchable in that index by construction, but nobody can know it)
+            del seen[:]
+            prf_mod.HmacPRF.__call__ = recording
+            try:
+                st1 = sse.Setup(scheme, copy.deepcopy(cfg), copy.deepcopy(db))
+            finally:
+                prf_mod.HmacPRF.__call__ = orig
+            if st1.error is not None:
+                continue
+            again = set(seen)
+            first_seen = [m for m in first_seen if m in again]
+        cands = []
+        for m in first_seen:
+            if m and m[0] != 0 and len(m) <= cp["kw_limit"] and m not in db and m not in cands:
+                cands.append(m)
+        acc.count("feedback.cases")
+        acc.count("feedback.prf_messages_seen", len(seen))
+        if not cands:
+            acc.count("feedback.no_candidate")
+            continue
+        # prefer short, name-like candidates but keep a random few of the others
+        cands.sort(key=lambda m: (len(m) > 16, rng.random()))
+        cands = cands[:6]
+        acc.count("feedback.candidate_keywords", len(cands))
+        acc.add("feedback.schemes", short)
+        if mode == "absent":
+            for w in cands:
+                acc.count("feedback.searches")
+                try:
+                    got = st1.search(w)
+                except Exception as e:
+                    acc.violation(f"{short}:absent-search-raised:{exc_site(e)}",
+                                  f"{scheme}: a keyword the scheme itself evaluated during setup (not a keyword of the "
+                                  f"database) raised {type(e).__name__}: {e}",
+                                  sse.case_desc(scheme, cid, cfg, "feedback", db, {"keyword": w, "family": "feedback"}))
+                    continue
+                if len(got) != 0:
+                    acc.violation(f"{short}:absent-nonempty",
+                                  f"{scheme}: a keyword the scheme itself evaluated during setup ({w[:24]!r}) is not in the "
+                                  f"database but its search returned {len(got)} identifiers",
+                                  sse.case_desc(scheme, cid, cfg, "feedback", db, {"keyword": w, "family": "feedback"}))
+            continue
+        db2 = copy.deepcopy(db)
+        try:
+            pool = gen.gen_ids(rng, cp["id_size"], 3 * len(cands) + 2)
+        except Exception:
+            continue
+        mx = max(1, min(3, cp.get("max_list", 3)))
+        for n, w in enumerate(cands):
+            db2[w] = pool[3 * n: 3 * n + rng.randint(1, mx)]
+        N = sum(len(v) for v in db2.values())
+        if N & (N - 1) == 0:
+            # a total that is not a power of two: the padding schemes then add dummy entries of their own
+            short_one = [w for w in cands if len(db2[w]) < mx]
+            if short_one:
+                db2[short_one[0]] = db2[short_one[0]] + [pool[-1]]
+                N += 1
+        if N > cp.get("max_total", 10 ** 9) or len(db2) > cp.get("max_keywords", 10 ** 9):
+            continue
+        if scheme == "CJJ14.Pi2Lev" and gen.pi2lev_A_len(cfg, [len(v) for v in db2.values()]) > cp["max_A_len"]:
+            continue
+        if scheme == "CGKO06.SSE2":
+            cfg = dict(cfg, param_n=len({x for v in db2.values() for x in v}) + 2)
+        shadow = copy.deepcopy(db2)
+        st2 = sse.Setup(scheme, copy.deepcopy(cfg), db2)
+        case = sse.case_desc(scheme, cid, cfg, "feedback", shadow, {"feedback_keywords": cands})
+        if st2.error is not None:
+            acc.violation(sse.setup_signature(scheme, st2) + ":feedback",
+                          f"{scheme} {st2.phase} raised {type(st2.error).__name__}: {st2.error} on a valid database whose "
+                          f"keywords include byte strings the scheme evaluated during an earlier setup", case)
+            continue
+        for w in shadow:
+            acc.count("feedback.searches")
+            try:
+                got = st2.search(w)
+            except Exception as e:
+                acc.violation(f"{short}:search-raised:{exc_site(e)}", f"{scheme}: {type(e).__name__}: {e} (feedback "
+                                                                      f"keywords)", dict(case, keyword=w))
+                continue
+            if not sse.result_matches(scheme, got, shadow[w]):
+                acc.violation(f"{short}:wrong-result:{sse.diff_kind(scheme, got, shadow[w])}",
+                              f"{scheme}: in a database whose keywords include byte strings the scheme evaluated during an "
+                              f"earlier setup ({[c[:16] for c in cands][:3]}), the result for {w[:24]!r} has {len(got)} ids, "
+                              f"expected {len(shadow[w])}", dict(case, keyword=w))
 
 
 def replay_steered(case, acc, ctx, mode):
@@ -342,6 +487,13 @@ def finish(m, tier, mode, min_searches):
         "setups_rejected_half_way_before_the_real_one": c.get("rejected_setups", 0),
         "cases_in_which_the_caller_edited_cfg_and_db_after_setup": c.get("caller_edits_inputs_after_setup", 0),
     }
+    cov["keywords_taken_from_the_schemes_own_prf_inputs"] = {k[9:]: v for k, v in c.items() if k.startswith("feedback.")}
+    cov["results_scribbled_on_by_the_caller"] = c.get("results_scribbled_on_by_the_caller", 0)
+    # (SSE-1, SSE-2 and DP17 evaluate their PRF on stored keywords only; ANSS16 only draws dummy keywords when it pads)
+    need = 5 if mode == "present" else 4
+    if c.get("feedback.searches", 0) < 300 or len(m["sets"].get("feedback.schemes", [])) < need:
+        inc.append(f"the feedback-keyword workload compared fewer than 300 searches or reached fewer than {need} schemes: "
+                   f"{sorted(m['sets'].get('feedback.schemes', []))}")
     cov["steered_values"] = {k[8:]: v for k, v in c.items() if k.startswith("steered.") and k.count(".") == 1}
     if c.get("steered.prf_outputs_forced", 0) < 200 or c.get("steered.searches", 0) < 500:
         inc.append("the steered-values workload forced fewer than 200 PRF outputs or compared fewer than 500 searches")
